@@ -34,7 +34,7 @@ __all__ = ['Reply', 'unknown_command', 'unknown_parameter', 'bad_sequence',
                     'bad_arguments', 'timed_out', 'unhandled_error',
                     'connection_failed', 'tls_failure', 'invalid_credentials']
 
-message_esc_pattern = re.compile(r'^([245]\.\d\d?\d?\.\d\d?\d?)\s+')
+message_esc_pattern = re.compile(r'^([245]\.\d\d?\d?\.\d\d?\d?)[ \t]+')
 esc_pattern = re.compile(r'^([245])\.(\d\d?\d?)\.(\d\d?\d?)$')
 code_pattern = re.compile(r'^[12345]\d\d$')
 
